@@ -474,7 +474,7 @@ fn main() {
         // Saturation with rules that create ever larger symmetric classes (mul0-var with comm/assoc)
         // makes the library enumerate astronomically many group variants: such a run is slow, not
         // wrong.  It is abandoned after the limit (its thread is left behind) and counted.
-        let res = match rx_res.recv_timeout(std::time::Duration::from_secs(env_u64("VERIF_RW_RUN_LIMIT", 20))) {
+        let res = match rx_res.recv_timeout(std::time::Duration::from_secs(env_u64("VERIF_RW_RUN_LIMIT", 45))) {
             Ok(r) => r,
             Err(_) => { abandoned += 1; if abandoned > 6 { break; } continue; }
         };
